@@ -128,7 +128,7 @@ func body(c cfg) explore.Body {
 			}
 			// command processor
 			gg.cpF = &world.Feeder{W: w, Port: gg.ctrl, Tag: gg.name + ".cp"}
-			gg.cpSink = &world.Sink{W: w, Port: gg.ctrl, Tag: gg.name + ".cp", StallAlphabet: []int{1, 3}, Handle: func(m sim.Msg) {}}
+			gg.cpSink = &world.Sink{W: w, Port: gg.ctrl, Tag: gg.name + ".cp", StallAlphabet: []int{1, 3, 40}, Handle: func(m sim.Msg) {}}
 			world.OnSend(gg.ctrl, func(m sim.Msg) {
 				if _, ok := m.(*pmc.PageMigrationRspFromPMC); !ok {
 					fail("control-port-unexpected-message", "%T", m)
@@ -238,6 +238,7 @@ func main() {
 		{"second-arrives-during-first", func(p uint64) []mig { return []mig{{0, 0x100, 0x400, 1}, {0, 0x300, 0x600, 6}} }},
 		{"both-directions", func(p uint64) []mig { return []mig{{0, 0x100, 0x400, 1}, {1, 0x000, 0x500, 1}} }},
 		{"both-directions-staggered", func(p uint64) []mig { return []mig{{0, 0x100, 0x400, 1}, {1, 0x000, 0x500, 4}, {0, 0x300, 0x600, 9}} }},
+		{"three-queued-at-once", func(p uint64) []mig { return []mig{{0, 0x100, 0x400, 1}, {0, 0x200, 0x500, 1}, {0, 0x300, 0x600, 1}} }},
 		{"three", func(p uint64) []mig { return []mig{{0, 0x100, 0x400, 1}, {0, 0x200, 0x500, 2}, {0, 0x300, 0x600, 12}} }},
 	}
 	pages := []uint64{64, 128, 256}
